@@ -19,7 +19,7 @@ class Case:
         from gaftools.cli import view
         self.tmp = tmp
         self.g = gen.rgfa(rng, max_ref_segs=7)
-        self.gtext = self.g.text(shuffle_rng=rng if rng.random() < 0.3 else None)
+        self.gtext = self.g.text(shuffle_rng=rng if rng.random() < 0.6 else None)
         self.tok = tokenize_gfa(self.gtext)
         adj = self.g.adjacency()
         nrec = rng.choice([1, 2, 3, 5, 8, 14]) if rng.random() < 0.93 else rng.randint(80, 200)
@@ -183,6 +183,15 @@ def c04_c05(ck, prop, tmp, n):
                         a = rng.randrange(lo, hi)
                         b = rng.randrange(a, hi)
                     regs.append([c, a, b])
+                    if rng.random() < 0.35:      # a second region on the same contig: nested in, overlapping or following the first
+                        a2 = rng.randrange(lo, hi)
+                        b2 = rng.randrange(a2, hi)
+                        if rng.random() < 0.5 and a < b:
+                            a2 = rng.randrange(a, b)
+                            b2 = rng.randrange(a2, b + 1)
+                        regs.append([c, a2, b2])
+                if rng.random() < 0.5:
+                    rng.shuffle(regs)
                 query = {"nodes": None, "regions": regs}
                 args = dict(regions=["%s:%d-%d" % tuple(r) for r in regs])
             fmt = None
@@ -238,7 +247,7 @@ def main(prop):
                   "pickle round-trip of the index; tell()/seek()/readline() of text files and of pysam's BGZF reader (C17's interface): offsets are resolved to record ordinals by the harness"]
     ck.assumptions = ["valid rGFA; GAF records well-formed, over nodes of the graph; unique read names in generated files (records are identified by name)"]
     ck.canon = ["index offsets resolved to record ordinals; entries compared as sets (the property says 'contains')", "records identified by read name"]
-    mods = ["Gaftools.Props.C03", "Gaftools.Props.TieA"]
+    mods = ["Gaftools.Props.C03", "Gaftools.Props.TieA", "Gaftools.Props.Glue"]
     from core import LEAN
     mods = [m for m in mods if os.path.exists(os.path.join(LEAN, *m.split(".")) + ".lean")]
     ck.lean_build(mods)
